@@ -295,6 +295,17 @@ def main(ctx, args):
     streams = [s for s in streams if not NULLABLE_LOOP.search(txt(s["cps"]))]
     corpus = [{"origin": "corpus/nullable-loop", "vi": False, "cps": [ord(c) for c in "a\n" + "a" * 40 + "c\n.\ns/(a*)*b/x/\n"], "size": (24, 80), "file": None,
                "exinit": "", "k": -1, "timeout": 8, "nullable": 1}]
+    # the inputs of the repaired defects (known_findings.jsonl, status fixed) run on every execution
+    def fixed(name, vi, text, size=(24, 80), file=None):
+        corpus.append({"origin": "corpus/" + name, "vi": vi, "cps": [ord(c) for c in text], "size": size, "file": file, "exinit": "", "k": -1})
+    fixed("bare-substitute", False, "a\nabc\n.\ns")
+    fixed("bare-substitute-vi", True, "iabc\x1b:s\n:&\n:~\n")
+    fixed("addressless-after-undo", False, "a\nx\ny\n.\nu\ns/a*//g\n&\np\nd\n")
+    fixed("at-frees-register", False, "c\nx\ne other\n1,$d\n.\n1,$d\n@\n")
+    fixed("cut-message", True, "w:p\n", (10, 700), "x" * 700 + "\n" + "漢" * 300 + "\nshort\n")
+    fixed("cut-message-narrow", True, "w:p\n", (2, 2), "x" * 700 + "\n" + "漢" * 300 + "\nshort\n")
+    fixed("stale-mark-column", True, "S22\r\x1b}gldw`yydd`'")
+    fixed("ctrl-r-multibyte", True, "A\x12ש\x1b")
     with ThreadPoolExecutor(NCPU) as ex:
         results = list(ex.map(lambda s: run_stream(ctx, s, safebin), streams + corpus))
     st = dict(streams=len(streams), ex_streams=sum(1 for s in streams if not s["vi"]), vi_streams=sum(1 for s in streams if s["vi"]),
